@@ -2,6 +2,7 @@ SPECIFICATION TraceSpec
 CONSTANT Bug = "none"
 CONSTANT MaxDefects = 14
 CONSTANT MaxValidations = 1
+CONSTANT AllowForever = TRUE
 CONSTANT MaxPending = 8
 INVARIANT TraceInv
 POSTCONDITION TraceAccepted
